@@ -269,8 +269,9 @@ class Check(PropertyCheck):
         _, jobs = gen.gen_instance(r, r.choice(["classic", "irregular", "recirc"]), max_jobs=3, max_machines=3, max_ops=3)
         from impl import build_instance
         g = build_disjunctive_graph(build_instance(jobs))
+        which = r.choice([("SOURCE", "SINK"), ("SOURCE",), ("SINK",), ("SOURCE", "SINK")])
         for node in list(g.nodes):
-            if node.node_type.name in ("SOURCE", "SINK"):
+            if node.node_type.name in which:
                 g.remove_node(node.node_id)
         res = []
         from job_shop_lib.dispatching import DispatcherObserverConfig
@@ -283,8 +284,14 @@ class Check(PropertyCheck):
                 graph = env.job_shop_graph
                 real = [node.node_id not in graph.graph for node in graph.nodes]
                 if [bool(b) for b in obs["removed_nodes"]][:len(real)] != real:
-                    res.append(("mask", f"custom graph without source/sink, episode {ep + 1} after {steps} steps: removed_nodes "
+                    res.append(("mask", f"custom graph without {'/'.join(which).lower()}, episode {ep + 1} after {steps} steps: removed_nodes "
                                 f"{[int(b) for b in obs['removed_nodes']]} but the nodes absent from the graph are {[int(b) for b in real]}"))
+                    return res
+                if not env.observation_space.contains(obs):
+                    bad = [k for k in obs if not env.observation_space[k].contains(obs[k])]
+                    res.append(("obs-not-in-space", f"custom graph without {'/'.join(which).lower()}, episode {ep + 1} after {steps} steps: "
+                                f"observation outside the declared space (keys {bad}; edge_index max "
+                                f"{int(obs['edge_index'].max())}, declared {env.observation_space['edge_index']})"))
                     return res
                 d = env.dispatcher
                 ready = [j for j, job in enumerate(d.instance.jobs) if d.job_next_operation_index[j] < len(job)]
